@@ -851,6 +851,43 @@ class Interp:
             return a != b
         raise Unsupported("cmp")
 
+    def _comp(self, e, fr, guard):
+        """list comprehension / generator expression over concrete iterables (single or nested `for`, optional concrete `if`)"""
+        outv = []
+
+        def rec(gi):
+            if gi == len(e.generators):
+                outv.append(self.eval(e.elt, fr, guard))
+                return
+            g = e.generators[gi]
+            it = self.eval(g.iter, fr, guard)
+            items = [self.arr_get(it, (i,)) for i in range(it.shape[0])] if isinstance(it, Arr) else list(it)
+            for x in items:
+                self.assign(g.target, x, fr, guard)
+                ok = True
+                for cond in g.ifs:
+                    c = as_cond(self.eval(cond, fr, guard))
+                    if c is False:
+                        ok = False
+                        break
+                    if c is not True:
+                        raise Unsupported("comprehension filtered by a symbolic condition")
+                if ok:
+                    rec(gi + 1)
+        rec(0)
+        return outv
+
+    def e_ListComp(self, e, fr, guard):
+        return self._comp(e, fr, guard)
+
+    def e_GeneratorExp(self, e, fr, guard):
+        return self._comp(e, fr, guard)
+
+    def s_Assert(self, st, fr, guard):
+        c = as_cond(self.eval(st.test, fr, guard))
+        if c is not True:
+            self.ctx.obligations.append((guard, c if c is not False else z3.BoolVal(False), "assert statement holds (AssertionError otherwise)"))
+
     def e_IfExp(self, e, fr, guard):
         c = self.decide(as_cond(self.eval(e.test, fr, guard)), guard)
         if c is True:
